@@ -406,7 +406,7 @@ theorem gen_natives_match :
 (whole stack array, one hop, map values only), address equality/hash, copied arguments, and no
 `scan_roots` in map.rs / tuple.rs — as the model assumes -/
 theorem gen_rules_match :
-    Gen.ListFwd.growthRule = ("needed > cap", "cap * 2") ∧
+    Gen.ListFwd.growthRule = ("needed > cap", "(cap * 2).max(needed)") ∧
     Gen.ListFwd.growSteps = ["VecBuilder::new(self, new_cap)", "write_len(new_list)", "mark_moved(cap)"] ∧
     Gen.ListFwd.forwardedArms = [("pop", true), ("remove", true), ("push", true), ("insert", true)] ∧
     Gen.ListFwd.listMacroCaps = ["4", "std::cmp::max(len, 4)"] ∧
